@@ -27,13 +27,17 @@ RULE = ("(a) Enumerated exhaustively: every object file of the library built as 
 ASSUMPTIONS = ["schedules are sampled, not enumerated; TSan's happens-before analysis flags unsynchronised shared state without the bad interleaving having to occur",
                "TSan sees only compiler-instrumented accesses (the assembly routines touch only their arguments)", "no liveness claim"]
 
+WRITABLE_SECTION = re.compile(r"^\.(bss|data|tbss|tdata|sbss|sdata)(\.|$)")
 ALLOWED_EXACT = {"memcpy", "memmove", "memset", "memcmp", "bcmp", "_GLOBAL_OFFSET_TABLE_"}
 HELPER_RE = re.compile(r"^__(u?div|u?mod|mul|ashl|ashr|lshr|udivmod|divmod|neg|cmp|ucmp|clz|ctz|popcount|bswap)[a-z]*[sdt]i[234]$|^__aeabi_[a-z0-9_]+$")
 OWN_RE = re.compile(r"^(embedded_pairing|_ZN?K?S?t?\d*16embedded_pairing|_ZN16embedded_pairing|_ZNK16embedded_pairing|_ZL|_ZZ|_ZGV|_ZTV|_ZTI|_ZTS)")
 # Known writable symbols: the dispatch table and its CPU flag (written once by a static initialiser), constants that are
 # initialised at load time and never written (lambda, the per-TU group_order copies), and the exported C pointer constants
-# (pointers to const objects; the pointers themselves are not declared const, the library never writes them).
-WRITABLE_OK = re.compile(r"runtime_(fpbase_384_montgomery_reduce|bigint_768_multiply|bigint_768_square)E$|L21cpu_supports_bmi2_adxE$|22g1_endomorphism_lambdaE$|(lqibe|wkdibe)L11group_orderE$|"
+# (pointers to const objects; the pointers themselves are not declared const, the library never writes them). core::Fp<...>::one is a
+# const static data member of a class template initialised from a reference template argument: clang at -O0 initialises it at load
+# time (weak symbol in .bss plus its guard variable) instead of folding it into .rodata; const, never written afterwards.
+WRITABLE_OK = re.compile(r"^_Z(GV)?N16embedded_pairing4core2FpI.*E3oneE$|"
+                         r"runtime_(fpbase_384_montgomery_reduce|bigint_768_multiply|bigint_768_square)E$|L21cpu_supports_bmi2_adxE$|22g1_endomorphism_lambdaE$|(lqibe|wkdibe)L11group_orderE$|"
                          r"^embedded_pairing_bls12_381_(group_order|g1_zero|g1affine_zero|g1affine_generator|g2_zero|g2affine_zero|g2affine_generator|gt_zero|gt_generator)$")
 
 BUILDS = []
@@ -60,17 +64,19 @@ def audit_objects(tag, cxx, flags, use_asm, opt, extra_inc=()):
     for o in sorted(os.listdir(d)):
         if not o.endswith(".o"):
             continue
-        out = subprocess.run(["llvm-nm" if "thumbv6m" in tag else "nm", os.path.join(d, o)], stdout=subprocess.PIPE, stderr=subprocess.DEVNULL, text=True).stdout
+        # (sysv format: name|value|class|type|size|line|section. The section decides what is writable: function-local statics of
+        # templates and inline functions are weak / unique symbols - classes u, V - which the one-letter class alone does not place.)
+        out = subprocess.run(["llvm-nm" if "thumbv6m" in tag else "nm", "-f", "sysv", os.path.join(d, o)], stdout=subprocess.PIPE, stderr=subprocess.DEVNULL, text=True).stdout
         for line in out.splitlines():
-            parts = line.split()
-            if len(parts) < 2:
+            parts = [x.strip() for x in line.split("|")]
+            if len(parts) != 7 or parts[0] == "Name":
                 continue
-            kind, name = parts[-2], parts[-1]
+            name, kind, section = parts[0], parts[2], parts[6]
             if kind == "U":
                 undefined.setdefault(name, o)
             else:
                 defined.add(name)
-                if kind in "bBdD":
+                if kind in "bBdD" or section == "*COM*" or (WRITABLE_SECTION.match(section) and not section.startswith(".data.rel.ro")):
                     writable[name] = o
     ext = {n: o for n, o in undefined.items() if n not in defined}
     return ext, writable, d
